@@ -42,7 +42,7 @@ func runCmd(args []string) {
 	out := fs.String("out", "", "result json")
 	verif := fs.String("verif", "/verif", "verif dir")
 	replay := fs.String("replay", "", "replay file")
-	_ = fs.String("repo", "/repo", "repository root")
+	repo := fs.String("repo", "/repo", "repository root")
 	maxFail := fs.Int("maxfail", 3, "replays kept per signature")
 	inflight := fs.String("inflight", "", "journal of the case being run (survives a crash of this process)")
 	_ = fs.Parse(args)
@@ -51,6 +51,7 @@ func runCmd(args []string) {
 			inflightFile, inflightProp = f, *prop
 		}
 	}
+	repoDir = *repo
 	run, ok := props[*prop]
 	if !ok {
 		fatal("no harness for property %q", *prop)
@@ -85,3 +86,7 @@ func runCmd(args []string) {
 		fatal("write result: %v", err)
 	}
 }
+
+// repoDir is the repository the harness was built against (source files are read from it where a check
+// takes a list of names from the code: the template function map for C17).
+var repoDir = "/repo"
